@@ -12,12 +12,15 @@ Proof. reflexivity. Qed.
 Definition alias_of (kv : name * option name) : name * name :=
   (fst kv, match snd kv with Some v => v | None => fst kv end).
 
-Lemma shape_params_bare m : shape_params m RBare = Some (m, AExports).
+Lemma prefixed_override_is : prefixed_override = Some AkAll.
 Proof. reflexivity. Qed.
+
+Lemma shape_params_bare m : m <> [] -> shape_params m RBare = Some (m, AAll).
+Proof. destruct m; [contradiction | reflexivity]. Qed.
 Lemma shape_params_star m : shape_params m RStar = Some ([], AExports).
 Proof. reflexivity. Qed.
-Lemma shape_params_as m a : shape_params m (RAs a) = Some (a, AExports).
-Proof. reflexivity. Qed.
+Lemma shape_params_as m a : a <> [] -> shape_params m (RAs a) = Some (a, AAll).
+Proof. destruct a; [contradiction | reflexivity]. Qed.
 Lemma shape_params_list m l : shape_params m (RList l) = Some ([], AList (map alias_of l)).
 Proof. reflexivity. Qed.
 
@@ -201,35 +204,35 @@ Proof.
     + simpl. split; [contradiction | intros [H _]; discriminate].
 Qed.
 
-(* (require m) and (require m :as A), as the code has them: the EXPORTED
-   macros under <prefix>.<name> *)
-Theorem require_prefixed_exports warn tgt sh p :
-  (sh = RBare /\ p = modname) \/ (sh = RAs p) -> p <> [] ->
-  exists asg tgt' w,
-    shape_params modname sh = Some (p, asg)
-    /\ require_model core env warn modname asg p tgt = (tgt', w, false)
-    /\ (forall k0, ns_get (p ++ [ch_dot] ++ k0) tgt' =
-          if name_in k0 (exports_of s) && ns_has k0 (s_macros s)
-          then ns_get k0 (s_macros s) else ns_get (p ++ [ch_dot] ++ k0) tgt)
-    /\ (forall k, strip_prefix (p ++ [ch_dot]) k = None -> ns_get k tgt' = ns_get k tgt).
+Lemma require_all_general warn prefix tgt :
+  exists tgt' w, require_model core env warn modname AAll prefix tgt = (tgt', w, false)
+  /\ (forall k, ns_get k tgt' =
+        match strip_prefix (dotted prefix) k with
+        | Some k0 => if ns_has k0 (s_macros s) then ns_get k0 (s_macros s) else ns_get k tgt
+        | None => ns_get k tgt
+        end).
 Proof.
-  intros Hsh Hp. destruct (require_exports_general warn p tgt) as [tgt' [w [Hr [Hk Hw]]]].
-  exists AExports, tgt', w. split.
-  { destruct Hsh as [[-> ->]| ->]; reflexivity. }
-  split; [exact Hr|].
-  assert (Hd : dotted p = p ++ [ch_dot]) by (destruct p; [contradiction | reflexivity]).
-  split.
-  - intros k0. rewrite Hk, Hd. rewrite app_assoc, strip_prefix_app. reflexivity.
-  - intros k Hn. rewrite Hk, Hd, Hn. reflexivity.
+  unfold require_model. rewrite Hfind. destruct (s_macros s) as [|p0 r0] eqn:Em; [contradiction|].
+  rewrite <- Em. change (pairs_of s AAll) with (map dup (ns_keys (s_macros s))).
+  destruct (req_loop_ok core warn (s_macros s) (dotted prefix) (map dup (ns_keys (s_macros s))) tgt []
+              (all_present_dup _ _ (keys_present (s_macros s)))) as [tgt' [w' [Hr [Hk Hw]]]].
+  exists tgt', w'. split; [exact Hr|].
+  intros k. rewrite Hk, assigned_dup. destruct (strip_prefix (dotted prefix) k) as [k0|]; [|reflexivity].
+  destruct (name_in k0 (ns_keys (s_macros s))) eqn:E.
+  - apply name_in_In in E. rewrite (keys_present _ _ E). pose proof (keys_present _ _ E) as Hp. unfold ns_has in Hp.
+    destruct (ns_get k0 (s_macros s)); [reflexivity | discriminate].
+  - destruct (ns_has k0 (s_macros s)) eqn:E2; [|reflexivity]. exfalso.
+    unfold ns_has in E2. destruct (ns_get k0 (s_macros s)) eqn:Eg; [|discriminate].
+    apply ns_get_In in Eg. assert (In k0 (ns_keys (s_macros s))) as Hin.
+    { unfold ns_keys. apply in_map_iff. exists (k0, m). split; [reflexivity | exact Eg]. }
+    apply name_in_In in Hin. congruence.
 Qed.
 
-(* the documented reading of the prefixed shapes -- "assigns every macro foo in
-   mymodule to the name mymodule.foo" -- holds when every macro is exported *)
-Definition all_exported (s : srcmod) : bool :=
-  forallb (fun k => name_in k (exports_of s)) (ns_keys (s_macros s)).
-
-Theorem require_prefixed_documented_partial warn tgt sh p :
-  (sh = RBare /\ p = modname) \/ (sh = RAs p) -> p <> [] -> all_exported s = true ->
+(* (require m) and (require m :as A): EVERY macro k of m becomes <prefix>.k,
+   whatever _hy_export_macros says and whether or not k starts with an
+   underscore; nothing else changes *)
+Theorem require_prefixed_all warn tgt sh p :
+  (sh = RBare /\ p = modname) \/ (sh = RAs p) -> p <> [] ->
   exists asg tgt' w,
     shape_params modname sh = Some (p, asg)
     /\ require_model core env warn modname asg p tgt = (tgt', w, false)
@@ -237,14 +240,15 @@ Theorem require_prefixed_documented_partial warn tgt sh p :
     /\ (forall k0, ns_get k0 (s_macros s) = None -> ns_get (p ++ [ch_dot] ++ k0) tgt' = ns_get (p ++ [ch_dot] ++ k0) tgt)
     /\ (forall k, strip_prefix (p ++ [ch_dot]) k = None -> ns_get k tgt' = ns_get k tgt).
 Proof.
-  intros Hsh Hp Hall. destruct (require_prefixed_exports warn tgt sh p Hsh Hp) as [asg [tgt' [w [H1 [H2 [H3 H4]]]]]].
-  exists asg, tgt', w. repeat split; try assumption.
-  - intros k0 m Hg. rewrite H3. unfold ns_has. rewrite Hg.
-    assert (name_in k0 (exports_of s) = true) as ->.
-    { unfold all_exported in Hall. rewrite forallb_forall in Hall. apply Hall.
-      apply ns_get_In in Hg. unfold ns_keys. apply in_map_iff. exists (k0, m). split; [reflexivity | exact Hg]. }
-    reflexivity.
-  - intros k0 Hg. rewrite H3. unfold ns_has. rewrite Hg. rewrite andb_false_r. reflexivity.
+  intros Hsh Hp. destruct (require_all_general warn p tgt) as [tgt' [w [Hr Hk]]].
+  exists AAll, tgt', w. split.
+  { destruct Hsh as [[-> ->]| ->]; [apply shape_params_bare | apply shape_params_as]; exact Hp. }
+  split; [exact Hr|].
+  assert (Hd : dotted p = p ++ [ch_dot]) by (destruct p; [contradiction | reflexivity]).
+  split; [|split].
+  - intros k0 m Hg. rewrite Hk, Hd, app_assoc, strip_prefix_app. unfold ns_has. rewrite Hg. reflexivity.
+  - intros k0 Hg. rewrite Hk, Hd, app_assoc, strip_prefix_app. unfold ns_has. rewrite Hg. reflexivity.
+  - intros k Hn. rewrite Hk, Hd, Hn. reflexivity.
 Qed.
 
 (* (require m [a b :as c ...]): exactly the listed names, each under its alias
@@ -289,22 +293,18 @@ Qed.
 
 End Shapes.
 
-(* ---------- the prefixed shapes do NOT bring in every macro: witness *)
+(* ---------- the prefixed shapes bring in every macro: instance with a
+   module that has an underscore macro and an export list omitting a macro *)
 
 Definition w_ma : name := [109; 97].               (* "ma" *)
 Definition w_priv : name := [95; 112].             (* "_p" *)
 Definition w_mod : name := [115].                  (* "s"  *)
-Definition w_src : srcmod := mkSrc [(w_ma, 1); (w_priv, 2)] None.
+Definition w_src : srcmod := mkSrc [(w_ma, 1); (w_priv, 2)] (Some []).
 Definition w_env : srcenv := [(w_mod, w_src)].
 
-(* after (require s), "s._p" is not a macro although _p is a macro of s;
-   the same with an explicit _hy_export_macros list that omits a macro *)
-Theorem require_prefixed_every_macro_refuted :
-  exists env modname s k0 m tgt',
-    find_src modname env = Some s /\ ns_get k0 (s_macros s) = Some m
-    /\ fst (do_require [] env (init_cstate [] []) modname RBare) = (tgt', [])
-    /\ lookup [] tgt' (modname ++ [ch_dot] ++ k0) = None.
-Proof.
-  exists w_env, w_mod, w_src, w_priv, 2.
-  eexists. split; [reflexivity|]. split; [reflexivity|]. split; vm_compute; reflexivity.
-Qed.
+Example require_prefixed_example :
+  let c := fst (fst (do_require [] w_env (init_cstate [] []) w_mod RBare)) in
+  lookup [] c (w_mod ++ [ch_dot] ++ w_priv) = Some 2 /\ lookup [] c (w_mod ++ [ch_dot] ++ w_ma) = Some 1
+  /\ lookup [] c w_ma = None
+  /\ lookup [] (fst (fst (do_require [] w_env (init_cstate [] []) w_mod RStar))) w_ma = None.
+Proof. vm_compute. repeat split. Qed.
